@@ -158,7 +158,7 @@ def run_case(case):
         b_idx = case.get('b_idx') or list(range(len(rates)))
         pairs = [(rates[i], rates[j]) for i in a_idx for j in b_idx if i <= j]
         catalogs = [list(c) for c in space.multisets(list(range(n)), case.get('min_events', 2), case['max_events'])]
-        variants = [(0.05, False)] if case['variants'] == 'main' else [(0.01, False), (0.5, False), (0.05, True), (0.01, True), (0.05, 'rescaled'), (0.05, 'rescaled-scaled'), (0.05, 'catalog-changed'), (0.05, 'array-scaled'), (0.05, 'int-rates')]
+        variants = [(0.05, False)] if case['variants'] == 'main' else [(0.01, False), (0.5, False), (0.05, True), (0.01, True), (0.05, 'rescaled'), (0.05, 'rescaled-scaled'), (0.05, 'catalog-changed'), (0.05, 'array-scaled'), (0.05, 'int-rates'), (0.05, 'aware-horizon')]
     def fc_of(r, name):
         # a FRESH forecast object per state: the calls of one state (T(A,B), T(B,A), binary T both orders, W both orders)
         # form an explicit history on the same two objects, so a call that corrupts a forecast is seen by the next one,
@@ -171,6 +171,9 @@ def run_case(case):
             if key not in cats:
                 counts = [cat_bins.count(k) for k in range(n)]
                 cats[key] = fixtures.catalog(fixtures.events_from_counts(numpy.array(counts).reshape(nc, nm), origins, mags), region=reg)
+                # events of the last (open-ended) magnitude bin lie several bin widths above its lower edge
+                top_ = cats[key].catalog['magnitude'] >= mags[-1]
+                cats[key].catalog['magnitude'][top_] += 2.5
             for alpha, scale in variants:
                 ra0, rb0 = ra, rb
                 try:
@@ -202,6 +205,12 @@ def run_case(case):
                         fa.scale(am)
                         fb = fc_of((numpy.array(rb).reshape(nc, nm) / ac).ravel().tolist(), 'B')
                         fb.scale(ac)
+                    if scale == 'aware-horizon':
+                        # the forecast horizon is given with UTC-aware datetimes whose zone is not the stdlib singleton named 'UTC'
+                        scale = True
+                        gmt = datetime.timezone(datetime.timedelta(0), 'GMT')
+                        mk_a = lambda r_, nme: fixtures.gridded_forecast(numpy.array(r_, dtype=float).reshape(nc, nm), reg, mags, name=nme, start=T0.replace(tzinfo=gmt), end=T1.replace(tzinfo=gmt))
+                        fa, fb = mk_a(ra, 'A'), mk_a(rb, 'B')
                     if scale == 'int-rates':
                         # rates stored as INTEGER arrays (four times the alphabet: 1, 4, 16), daily rates requested
                         from csep.core.forecasts import GriddedForecast
